@@ -155,6 +155,7 @@ type loaded struct {
 	pkgs      []*packages.Package
 	harnesses []*ssa.Function
 	labels    map[string][]string // harness → statically present assertion/reach labels
+	fnLabels  map[string][]string // "<file>|<func name>" → labels inside that function declaration
 	configs   map[string]map[string]string
 	files     []harnessFile
 	loadTime  time.Duration
@@ -206,7 +207,7 @@ func loadProgram(prop string) (*loaded, error) {
 	}
 	prog, spkgs := ssautil.AllPackages(pkgs, ssa.InstantiateGenerics)
 	prog.Build()
-	l := &loaded{prog: prog, pkgs: pkgs, files: files, labels: map[string][]string{}, configs: map[string]map[string]string{}}
+	l := &loaded{prog: prog, pkgs: pkgs, files: files, labels: map[string][]string{}, fnLabels: map[string][]string{}, configs: map[string]map[string]string{}}
 	overlayFiles := map[string]bool{}
 	for _, f := range files {
 		if f.dir != "verifrt" {
@@ -238,6 +239,40 @@ func loadProgram(prop string) (*loaded, error) {
 			fn := prog.Fset.Position(af.Pos()).Filename
 			if !overlayFiles[fn] {
 				continue
+			}
+			for _, decl := range af.Decls {
+				fd, ok := decl.(*ast.FuncDecl)
+				if !ok || fd.Body == nil {
+					continue
+				}
+				ast.Inspect(fd, func(n ast.Node) bool {
+					ce, ok := n.(*ast.CallExpr)
+					if !ok {
+						return true
+					}
+					se, ok := ce.Fun.(*ast.SelectorExpr)
+					if !ok {
+						return true
+					}
+					idx := -1
+					switch se.Sel.Name {
+					case "Assert", "AssertK":
+						idx = 1
+					case "Reach":
+						idx = 0
+					}
+					if idx < 0 || len(ce.Args) <= idx {
+						return true
+					}
+					if id, ok := se.X.(*ast.Ident); !ok || (id.Name != "v" && id.Name != "verifrt") {
+						return true
+					}
+					if bl, ok := ce.Args[idx].(*ast.BasicLit); ok && bl.Kind == token.STRING {
+						s, _ := strconv.Unquote(bl.Value)
+						l.fnLabels[fn+"|"+fd.Name.Name] = append(l.fnLabels[fn+"|"+fd.Name.Name], s)
+					}
+					return true
+				})
 			}
 			ast.Inspect(af, func(n ast.Node) bool {
 				ce, ok := n.(*ast.CallExpr)
